@@ -228,7 +228,7 @@ func main() {
 	headKs := []int{1, 10, strings.Index(reqHead, "\r\n") + 2, strings.Index(reqHead, "X-Stall") + 4, len(reqHead) - 1}
 	ppKs := []int{1, 5, 6, 12, 20, len(ppHeader) - 1}
 	helloKs := []int{1, 5, 6, 50, len(hello) - 1}
-	pp2Ks := []int{5, 13, 16, 17, 22, len(ppHeaderV2) - 1}
+	pp2Ks := []int{5, 12, 13, 14, 15, 16, 17, 22, len(ppHeaderV2) - 1} // every offset around the family / length octets
 	if !run.Quick() {
 		for k := 2; k < len(reqHead)-1; k += 3 {
 			headKs = append(headKs, k)
